@@ -196,11 +196,16 @@ def execute(scenario):
         available = request["cer"]["packages"]
         expect_missing = do_packages and any(k not in available for k in used)
         reference, substituted = None, None
+        # "all well-formed expressions": whether the abbreviated text is one is the parser's decision (a key range check
+        # while reading, for instance) - taken by the code under test itself, flags off, in a pristine process
+        abbreviated = pristine(_reference, scenario, request["rid"], op["expr"])
+        if "ok" not in abbreviated:
+            plans[request["rid"]] = ("rejected", abbreviated, None, used, available)
+            continue
         if not expect_missing:
             substituted = substitute(op["expr"], available, do_packages, do_time)
             reference = pristine(_reference, scenario, request["rid"], substituted)
-            # (if the library rejects the substituted text, it must reject the abbreviated one in the same way: the
-            # two outcomes are compared like any others)
+            # (if the library rejects the substituted text, it must reject the abbreviated one as well)
         plans[request["rid"]] = (expect_missing, reference, substituted, used, available)
     try:
         sim, outcomes = run_requests(scenario, do_op)
@@ -216,6 +221,18 @@ def execute(scenario):
         rid, op = request["rid"], request["op"]
         expect_missing, reference, substituted, used, available = plans[rid]
         outcome = strip_msg(outcomes.get(rid, {"missing": True}))
+        if expect_missing == "rejected":
+            # outside the quantifier; the only demand is that resolving rejects it as parsing does
+            verdict["probes"]["not_wellformed_for_the_parser"] = verdict["probes"].get(
+                "not_wellformed_for_the_parser", 0) + 1
+            if "exc" not in outcome or not is_exception(outcome, reference["exc"]):
+                fail(
+                    verdict,
+                    "rejected-expression-resolved",
+                    f"{rid}: parsing {op['expr']!r} alone ends in {dumps(reference)[:300]}, resolving it in "
+                    f"{dumps(outcome)[:300]}",
+                )
+            continue
         if expect_missing:
             sim.count_fault("F4_unknown_package")
             verdict["faults"] = dict(sim.fault_counts)
@@ -227,6 +244,11 @@ def execute(scenario):
                     f"{rid}: {op['expr']} with table {available} (missing {[k for k in used if k not in available]}): "
                     f"expected NotImplementedError, got {dumps(outcome)[:500]}",
                 )
+            continue
+        if "exc" in reference and "exc" in outcome:
+            # the parser rejects the substituted text (a package expression that is not well-formed for it): resolving
+            # must reject as well - as which error, and wrapped by which visitor, the statement leaves open
+            verdict["probes"]["substituted_text_rejected"] = verdict["probes"].get("substituted_text_rejected", 0) + 1
             continue
         if outcome != reference:
             fail(
